@@ -257,6 +257,9 @@ pub struct Expect {
     pub match_facts: Option<MatchFacts>,
     /// bid fee facts for create_bid: expected fee
     pub expected_fee: Option<u128>,
+    /// for a match: the ask fee the configured rate gives on the executed gross (exact
+    /// arithmetic), whenever it can be computed -- whatever the verdict
+    pub expected_ask_fee: Option<(u128, Option<String>)>,
 }
 
 impl Expect {
@@ -269,6 +272,7 @@ impl Expect {
             labels: vec![],
             match_facts: None,
             expected_fee: None,
+            expected_ask_fee: None,
         }
     }
     fn refuse(failing: Vec<String>) -> Expect {
@@ -280,6 +284,7 @@ impl Expect {
             labels: vec![],
             match_facts: None,
             expected_fee: None,
+            expected_ask_fee: None,
         }
     }
 }
@@ -467,6 +472,7 @@ fn finish(
         labels,
         match_facts: None,
         expected_fee: None,
+        expected_ask_fee: None,
     }
 }
 
@@ -1037,6 +1043,7 @@ fn expect_match(
         failing.push("price: ask price exceeds bid price".into());
     }
     let mut facts = MatchFacts::default();
+    let mut expected_ask: Option<(u128, Option<String>)> = None;
     let mut alts = vec![];
     if let Some(p) = &exec {
         if !(p.eq_num(&ap) || p.eq_num(&bp)) {
@@ -1089,6 +1096,9 @@ fn expect_match(
                             }
                         }
                     }
+                }
+                if zone.is_none() {
+                    expected_ask = Some((ask_fee, cfg.ask_fee.as_ref().map(|f| f.0.clone())));
                 }
                 if ask_fee > gross {
                     // "with the configured fees payable" fails: no demand either way
@@ -1273,6 +1283,7 @@ fn expect_match(
     if x.verdict == Verdict::Accept {
         x.match_facts = Some(facts);
     }
+    x.expected_ask_fee = expected_ask;
     x
 }
 
@@ -1435,5 +1446,6 @@ fn expect_modify(ctx: &Ctx, cfg: &Cfg, ch: &CfgChange) -> Expect {
         labels,
         match_facts: None,
         expected_fee: None,
+        expected_ask_fee: None,
     }
 }
